@@ -54,8 +54,10 @@ def leaf_spec(rng, base, spread):
 def tree_spec(rng, depth, base, spread):
     if depth <= 0 or rng.random() < 0.2:
         return leaf_spec(rng, base, spread)
-    d = S.reg('CompoundPixelRegion', region1=tree_spec(rng, depth - 1, base, spread), region2=tree_spec(rng, depth - 1, base, spread),
-              operator=rng.choice(['and', 'or', 'xor']))
+    r1, r2 = tree_spec(rng, depth - 1, base, spread), tree_spec(rng, depth - 1, base, spread)
+    if rng.random() < 0.15:
+        r2 = gen.graze(rng, r1, r2)          # boxes that share one pixel column / row
+    d = S.reg('CompoundPixelRegion', region1=r1, region2=r2, operator=rng.choice(['and', 'or', 'xor']))
     inc = rng.choice(['inherit', 'inherit', 'inherit', True, False, 0, 1, 'empty'])
     if inc == 'empty':
         d['meta'] = {}             # an explicit, empty meta of its own: the compound is included whatever region1 says
